@@ -10,6 +10,7 @@ from . import rules_serde as SE
 from . import rules_encaps as EN
 from . import rules_cursor as CU
 from . import rules_layout as LA
+from . import rules_flat as FL
 
 TRUSTED_BASE = [
     "rustc nightly (type checker, MIR construction at mir-opt-level=0, compile_fail diagnostics)",
@@ -61,6 +62,8 @@ def _run(name, f):
         r = [CU.r_cursor(f)[0]]
     elif name == "layout":
         r = [LA.r_layout(f)[0]]
+    elif name == "flatseq":
+        r = [FL.r_flatseq(f)[0]]
     else:
         mod = EXTRA.get(name)
         if mod is None:
@@ -158,8 +161,8 @@ prop("C08", [sel("take", fn=ROWCUR), sel("ovf", fn=ROWCUR), sel("cursor", fn=r"^
      declined=["fold/rfold are std's provided methods over next/next_back"])
 prop("C09", [sel("cursor", fn=r"^(Col|ColMut)( |:|$)|<rule>"), sel("take", fn=COLCUR), sel("ovf", fn=COLCUR), sel("guard", rules=["R-ARITH"], fn=COLCUR), sel("guard", fn=r"(::col$|::col_mut$| as TooDeeOps(Mut)?::col|get_col_params)")],
      "Column cursors: R-CURSOR (as C08 with item width 1 and gap skip) for Col and ColMut; R-TAKE, R-OVF as for rows; (R-ARITH) indexing multiplies with overflow detection and uses a checked slice index; (R-GUARD) col(c)/col_mut(c) panic for c >= num_cols on the three receivers. ")
-prop("C10", [sel("flat_struct"), sel("take", fn=r"^RowsMut")],
-     "Cell iterators, structural clauses: (R-FLAT f2) front-direction methods of FlattenExact only advance inner iterators from the front, back-direction methods only from the back, fold/rfold chain front row, remaining rows, back row and fold in the matching direction; unsafe code is forbidden in the adaptor.  R-FLATSEQ (denotational conformance of next/next_back/nth/nth_back) is decided by the flat engine when present.",
+prop("C10", [sel("flatseq"), sel("flat_struct"), sel("take", fn=r"^RowsMut"), sel("cursor", fn=r"^(Rows|RowsMut)( |:|$)|<rule>")],
+     "Cell iterators: (R-FLATSEQ) next, next_back, nth, nth_back of FlattenExact are evaluated from the four entry configurations (partial front row / partial back row present or not, symbolic remaining lengths, symbolic n) with the inner iterators modelled by their C08 contract as intervals of one flattened index space; on every path the returned element must be element 0 / n (from the respective end) and the merged remaining intervals must be exactly the ideal remaining sequence - since the ideal is stated on the denotation, per-function conformance covers every interleaving; (R-FLAT f2) front-direction methods of FlattenExact only advance inner iterators from the front, back-direction methods only from the back, fold/rfold chain front row, remaining rows, back row and fold in the matching direction; unsafe code is forbidden in the adaptor; the inner row cursors conform to the ideal strided cursor (R-CURSOR, C08).",
      declined=["third-party TooDeeIterator implementations honouring their contract"])
 prop("C11", [sel("shape", rules=["R-UNWIND", "R-HIDE"]), sel("zero", fn=r"^(TooDee::(insert|remove|clear|swap_dim)|DrainCol|DropGuard)"), sel("sortshape", desc=r"s5")],
      "Panic safety is an exit-point property: (R-UNWIND) at every may-unwind terminator (caller code recognised structurally: trait methods on type parameters, closure parameters, drops of types mentioning a type parameter; allocation failure in reserve; assertion failures) of every shape writer, with a shape write still pending, the triple (len, rows, cols) - followed through cleanup blocks and restorer drops - is untouched, all-zero or in product form; (R-HIDE) bitwise duplicates only exist beyond the lowered length and no unwind path restores it; (R-SORTSHAPE s5) comparators/key functions run only inside the side sort, which dominates all array writes.",
